@@ -659,6 +659,12 @@ class Model:
                                       constr.multiplier, constr.xtype,
                                       params=constr.params)
             elif isinstance(constr, DecExpConstr):
+                # as for the other convex constraints, the arguments must not
+                # depend on the random variables
+                for each in (constr.expr1, constr.expr2, constr.expr3):
+                    if not isinstance(each, Real):
+                        each = each.to_affine()
+                        static_part(each.linear@drule + each.const)
                 if isinstance(drule, RoAffine):
                     drule_affine = drule.affine
                 else:
@@ -686,6 +692,7 @@ class Model:
                 ew_constr = ExpConstr(expr1.model, expr1, expr2, expr3)
 
             elif isinstance(constr, DecLMIConstr):
+                static_part(constr.linear @ drule)
                 if isinstance(drule, RoAffine):
                     drule_affine = drule.affine
                 else:
